@@ -44,7 +44,7 @@ P('C10', ['sess.*', 'cookie'], ['login', 'remember', 'expire'], ['core', 'full']
 P('C19', ['db.ex', 'db.pw', 'db.arb', 'db.conf', 'db.cTok', 'db.extra', 'sess.uid', 'resp.class', 'resp.loc', 'resp.mails'],
   ['register'], ['core', 'full'], foot_acts=['RegisterPost'])
 
-P('C17', ['resp.mails'], ['recover', 'register', 'tfasetup'], ['core', 'full'], fam_consts={'tfasetup': {'MaxDepth': 5}})
+P('C17', ['resp.mails', 'db.arb'], ['recover', 'register', 'tfasetup'], ['core', 'full'], fam_consts={'tfasetup': {'MaxDepth': 5}})
 PROPS['C17']['assumptions'] = PROPS['C17']['assumptions'] + [
     'the scanner looks for every plaintext secret the harness typed or was shown (passwords incl. a bcrypt-shaped one, one-time passwords, '
     'recovery codes, remember cookies, mailed tokens; raw, base64 std/url, hex, URL-escaped, and decoded token bytes) in every stored string '
@@ -91,7 +91,8 @@ PROPS['C19']['assumptions'] = PROPS['C19']['assumptions'] + [
     'for 40 / 120 rule vectors (each bound alone, the shipped default, seeded random vectors), lengths in bytes']
 
 PROPS['C18'] = dict(engine='faults', level='fault_enumeration', quick={}, thorough={},
-                    foot=['C01.sessionOnlyByCredential', 'C01.otherBrowserUntouched', 'C02.primaryOnlyParks', 'C03.noLoginWhileBlocked', 'C13.changeAuthorised'],
+                    foot=['C01.sessionOnlyByCredential', 'C01.otherBrowserUntouched', 'C02.primaryOnlyParks', 'C03.noLoginWhileBlocked', 'C13.changeAuthorised',
+                          'C19.noAutoLoginUnderConfirm', 'C19.neverOverwrites', 'C19.invalidCreatesNothing'],
                     technique='fault injection at every backend call of requests inside random scenarios; each faulted step is judged by TLC (spec/Trace.tla) against the C18 clauses of spec/Props.tla with the fault-free specification step as the reference',
                     assumptions=['backends = harness store (Load/Save/Create/LoadBy*Selector/remember-token calls/OAuth2 calls), hasher, view and mail renderer, SMS sender, mailer, provider lookup; error kinds: generic I/O error at every call, ErrUserNotFound at load/save calls, ErrTokenNotFound at UseRememberToken',
                                  'both the shipped log-only error handler and a 500-writing one are configured (random per scenario)',
